@@ -660,3 +660,91 @@ def run_faults(ctx, only=None):
         if ans != impl:
             ctx.disagree("iff file operations", case, model=ans[:600], impl=impl[:600])
     return runs
+
+
+# ---------------------------------------------------------------------------------------
+# load as a program over the file object (Model/Container/IffLoadM.lean): the tag class constructor on FaultFile — every
+# fault index, every short-read budget at every read — against the model (C06)
+
+def run_load_faults(ctx, only=None):
+    """`_IFFID3(f)` / `_WaveID3(f)` / `_DSDIFFID3(f)` on FaultFile over generated files (well-formed and damaged): clean, one
+    IOError at every call index, a short read (0, 1, n/2, n-1 bytes) at every read.  The model covers the calls up to the seek to
+    the ID3 data: its call log must be the real log (a prefix of it when the real code goes on to parse the tag), and when the
+    model says the call raises, the real call must have raised the same class after exactly the same calls.  On the real
+    outcome: only MutagenError (ValueError from verify_fileobj, call 0), the file untouched, the object not closed.
+    Returns the number of real runs."""
+    from mutagen import MutagenError
+    from fobj import FaultFile
+    rng = ctx.rng
+    classes = tag_classes()
+    nfiles = int(os.environ.get("VERIF_IFF_LOAD_FILES", "0")) or ctx.budget(10, 120)
+    reqs = []
+    runs = 0
+    for dname in (only or ["aiff", "wave", "dsdiff"]):
+        d = DIALECTS[dname]
+        cls = classes[dname][0]
+        for fi in range(nfiles):
+            if rng.random() < 0.5:
+                lay = _small_plain(rng, d)
+                if lay["id3"] is not None and rng.random() < 0.7:
+                    body = rbytes(rng, rng.choice([0, 3, 14]))
+                    tag = b"ID3\x04\x00\x00" + bytes([0, 0, 0, len(body)]) + body
+                    lay["id3"] = (lay["id3"][0], tag, b"\0" * (len(tag) % 2))
+                data, kind = render_file(d, lay["form"], all_chunks(lay)), "plain"
+            else:
+                data, kind, _ = gen_file(rng, dname)
+                if len(data) > 700:
+                    continue
+            base = dict(fmt=dname, kind=kind, data=hx(data))
+            ref = FaultFile(data)
+            k0, r0 = timed(lambda: cls(ref), 20)
+            runs += 1
+            envs = [("clean", {}, "")]
+            n = ref.calls
+            idx = range(n) if n <= 70 else sorted(set(list(range(40)) + [rng.randrange(n) for _ in range(30)]))
+            for i in idx:
+                envs.append(("fail", dict(fail_at=i), " fail=%d:io" % i))
+                if ref.log[i].startswith("r"):
+                    want = int(ref.log[i][1:])
+                    for kk in sorted(set([0, 1, want // 2, max(0, want - 1)])):
+                        if kk < want:
+                            envs.append(("short", dict(short=(i, kk)), " short=%d:%d" % (i, kk)))
+            for ename, kw, extra in envs:
+                f = FaultFile(data, **kw)
+                k, res = timed(lambda: cls(f), 20)
+                runs += 1
+                case = dict(base, env=extra.strip() or "clean")
+                ctx.case(key=("iffload", dname, fi, extra), nontrivial=(ename != "clean"), modelled=True)
+                st = "ok" if k == "ok" else ("hang" if k == "hang" else classify(res))
+                ctx.hist["iffload:%s:%s" % (ename, st)] += 1
+                if k == "hang":
+                    ctx.violation("iff:%s:load:hang" % dname, "did not finish", case); continue
+                if f.getvalue() != data:
+                    ctx.violation("iff:%s:load:modifies-file" % dname, "load changed the file", case)
+                if f.closed_called:
+                    ctx.violation("iff:%s:load:closes-caller-file" % dname, "close() was called on the caller's file object", case)
+                if k == "exc" and not isinstance(res, MutagenError) and not (isinstance(res, ValueError) and kw.get("fail_at") == 0):
+                    ctx.violation("iff:%s:load:fault-raises-%s" % (dname, type(res).__name__), "%s surfaced as %r" % (extra, res), case)
+                if ename == "short" and k0 == "ok" and k == "exc" and isinstance(res, MutagenError) and "No ID3 chunk" in str(res):
+                    ctx.hist["iffload:short-read-hides-tag"] += 1
+                reqs.append(("iffload fmt=%s data=%s%s" % (dname, hx(data), extra), (st, f.pos(), list(f.log)), case))
+    answers = ask_model(ctx, [r[0] for r in reqs]) if reqs else None
+    if answers is None:
+        ctx.notes.append("iff_tie.run_load_faults: model driver unavailable, tie skipped")
+        return runs
+    if any(a == "bad-op" for a in answers):
+        ctx.notes.append("iff_tie.run_load_faults: the driver does not know the `iffload` command; tie skipped")
+        return runs
+    from vcheck import parse_fields
+    for (line, (st, pos, log), case), ans in zip(reqs, answers):
+        ctx.traces_validated += 1
+        mst, mf = parse_fields(ans)
+        mlog = [] if mf.get("log", "-") == "-" else mf["log"].split(",")
+        if mst == "ok":
+            # the model stops where the ID3 parser starts: its calls are the first calls of the real run
+            good = log[:len(mlog)] == mlog and len(log) >= len(mlog)
+        else:
+            good = (mst.replace(":", " ") == st) and log == mlog and int(mf.get("pos", -1)) == pos
+        if not good:
+            ctx.disagree("iff load file operations", case, model=ans[:500], impl="%s pos=%d log=%s" % (st, pos, ",".join(log))[:500])
+    return runs
